@@ -783,6 +783,16 @@ func genC14(r *simrt.Rand, tier string) any {
 		sc.Stalls = append(sc.Stalls, simfs.Fault{Op: []string{"Lstat", "OpenFile", "Stat", ""}[r.Int(4)], Nth: 1 + r.Int(6), Kind: "stall", Stall: time.Duration([]int{30, 800, 6000}[r.Int(3)]) * time.Millisecond})
 		sc.Admin = append(sc.Admin, C16Admin{AtUs: []int{0, 500, 30000}[r.Int(3)], Pol: PolSpec{ReadOnly: r.Pct(50), RL: r.Pct(20)}})
 	}
+	// backend errors: the failure arms of the procedures (status mapped from whatever the backend
+	// returned, failure-shaped wcc/post-op data) are replies like any other and must decode strictly
+	if r.Pct(35) {
+		for i, n := 0, 1+r.Int(3); i < n; i++ {
+			sc.Stalls = append(sc.Stalls, simfs.Fault{
+				Op:   []string{"", "", "Lstat", "Stat", "OpenFile", "File.Sync", "File.WriteAt", "File.ReadAt", "File.Readdir", "ReadDir", "Readlink", "Remove", "Rename", "Mkdir", "Symlink", "Create", "Chmod", "Truncate"}[r.Int(18)],
+				Nth:  1 + r.Int(12),
+				Kind: []string{"eio", "eio", "enospc", "eacces"}[r.Int(4)], Repeat: r.Pct(30)})
+		}
+	}
 	return sc
 }
 
